@@ -252,7 +252,10 @@ func linearCases() []*pcase {
 	for _, u := range []struct {
 		f int
 		p time.Duration
-	}{{1, 100 * time.Millisecond}, {5, 100 * time.Millisecond}, {2, time.Millisecond}, {600, time.Minute}, {3, 2 * time.Second}, {7, 333 * time.Microsecond}} {
+	}{{1, 100 * time.Millisecond}, {5, 100 * time.Millisecond}, {2, time.Millisecond}, {600, time.Minute}, {3, 2 * time.Second}, {7, 333 * time.Microsecond},
+		// around one hit per nanosecond, where the interval between two hits is no longer a whole number of nanoseconds
+		{1000000, time.Second}, {999999999, time.Second}, {1000000000, time.Second}, {1000000001, time.Second}, {1500000000, time.Second}, {3, 2 * time.Nanosecond}, {2000000000, time.Second},
+		{2500000000, time.Second}, {3, time.Nanosecond}} {
 		for _, sl := range []float64{0, 1, 2, 100} {
 			a, b := sl, float64(u.f)/u.p.Seconds()
 			c := &pcase{kind: "linear", desc: fmt.Sprintf("linear{startAt=%d/%s,slope=%g}", u.f, u.p, sl), class: "valid",
